@@ -98,6 +98,8 @@ def _main(a, VC):
             verdict = "FALSE-ALARM" if caught else ("green" if all(c.get("exit") == 0 for c in rec["checks"].values()) else "ERROR")
         else:
             verdict = "CAUGHT" if caught else "missed"
+            if meta.get("scope") == "outside":      # judged outside the property texts (meta.json scope_reason): recorded, not counted
+                verdict = "outside(" + verdict + ")"
         rec["verdict"] = verdict
         # what the checks said the first time this change was run (before any strengthening) is kept
         rec["first_verdict"] = prev.get("first_verdict") or prev.get("verdict") or verdict
